@@ -951,7 +951,13 @@ def _interp_common(s1, s2, sampling, method, fill_value):
 
     dwave = _sampling((s1.wave, s2.wave), sampling)
 
-    num = int(np.ceil((maxwave - minwave)/dwave))
+    # number of intervals: a ratio that is an integer up to rounding (e.g. a
+    # range of 1.0 in steps of 0.1 gives 10.000000000000002) is that integer
+    num = (maxwave - minwave)/dwave
+    if abs(num - np.round(num)) <= 1e-9*max(num, 1):
+        num = int(np.round(num))
+    else:
+        num = int(np.ceil(num))
     commonwave = np.linspace(minwave, maxwave, num + 1)
 
     # get the portion of commonwave that corresponds to the two spectrum objects
